@@ -1145,6 +1145,10 @@ class TreeSim(WorldBase):
         for lv in ob.levels(sl.root):
             if any(x is f for x in lv):
                 raise Skip("still in the tree")
+        # ... nor is it one if the `adopt` route has meanwhile made it, or a fiber below it, part of a live tensor
+        live = {id(x) for sl2 in self.slots.values() for lv in ob.levels(sl2.root) for x in lv}
+        if any(id(x) in live for lv in ob.levels(f) for x in lv):
+            raise Skip("adopted meanwhile")
         below = sl.depth - h["level"]
         if below < 1:
             raise Skip("level")
